@@ -55,6 +55,10 @@ Lemma opcode_w_set_sys s l : opcode_w (set_sys s l) = opcode_w s. Proof. reflexi
 Lemma opcode_len_set_sys s l : opcode_len (set_sys s l) = opcode_len s. Proof. reflexivity. Qed.
 Lemma R_set_sys s l : R (set_sys s l) = R s. Proof. reflexivity. Qed.
 
+Lemma run_get_sys_bind {A} i (k : Z -> M machine A) s : bind (get_sys i) k s = k (getl (sys s) i) s.
+Proof. reflexivity. Qed.
+Lemma run_put_sys_bind {A} i v (k : unit -> M machine A) s : bind (put_sys i v) k s = k tt (set_sys s (setl (sys s) i v)).
+Proof. reflexivity. Qed.
 Lemma bind_assoc_run {A B C} (m : M machine A) (f : A -> M machine B) (g : B -> M machine C) s :
   bind (bind m f) g s = bind m (fun x => bind (f x) g) s.
 Proof. unfold bind. destruct (m s); reflexivity. Qed.
